@@ -18,7 +18,10 @@ CLAIM = dict(
          "get_bands_in_range_groups_ik(sea=True), which partition the bands because bandmax is clamped to the first "
          "group in range - also when the lowest Fermi level lies inside a multiplet) the internal Berry curvature "
          "traced as the calculators trace it is zero at every k; hence a Fermi-sea sum with the Fermi level above all "
-         "bands vanishes.  NOT proved (topology + quadrature): AHC*c of a "
+         "bands vanishes.  For the FULL Berry curvature (external terms included, the class Omega as a structure term of "
+         "C04's covariant-expression syntax) the sum over the blocks of any grouping is gauge invariant "
+         "(omega_total_gauge_invariant) but obeys NO sum rule (external_terms_no_sum_rule: one band with rotAA = 1 gives "
+         "1).  NOT proved (topology + quadrature): AHC*c of a "
          "gapped 2D model is an integer multiple of e^2/h - checked by the oracle only (Haldane models from "
          "models.Haldane_ptb/Haldane_tbm in trivial and topological phases, with random perturbations and random "
          "external-term matrices, against an independent Fukui-Hatsugai-Suzuki Chern number; 2 %, sign pinned).",
